@@ -30,6 +30,7 @@ import numpy as np
 
 from ..drivers import fragments as FR
 from ..drivers import sp
+from .. import warm
 from ..pool import is_error, is_timeout, pmap
 
 PID = "C19"
@@ -214,6 +215,7 @@ def _sysname(t):
 
 
 def run(chk, tier, seed):
+    warm()  # import torch + seqm once in the parent; the forked children inherit them
     tasks = _tasks(tier, seed)
     cost = {"series": 3, "cutoff": 2, "boundary": 1}
     order = sorted(range(len(tasks)), key=lambda i: -cost[tasks[i]["kind"]])
